@@ -971,6 +971,19 @@ func ruleMapOrder(c *Ctx) {
 	}
 	sort.Strings(tainted)
 	c.ok("summary", "", "", fmt.Sprintf("%d functions analysed, %d map-order sources, %d sink sites checked, %d functions return map-ordered data (none reaches a data sink unsorted): %s", len(fns), len(e.sources), e.sinks, len(tainted), strings.Join(tainted, " ; ")))
+	// a sort that answers a sorted copy undoes nothing when the copy is thrown away
+	for _, fn := range fns {
+		for _, ci := range callsIn(fn) {
+			cn := calleeName(ci.Common())
+			if cn != "slices.Sorted" && cn != "slices.SortedFunc" && cn != "slices.SortedStableFunc" {
+				continue
+			}
+			c.site(1)
+			v := ci.Value()
+			used := v != nil && v.Referrers() != nil && len(*v.Referrers()) > 0
+			c.check(used, c.ownerName(fn)+"|sorted-copy-used|"+cn, c.pos(ci.Pos()), fname(fn), "the sorted copy is what is used afterwards", fmt.Sprintf("%s: the result of %s is thrown away: it answers a sorted copy and leaves its argument as it was, so what is used afterwards is still in the order the map handed out", fname(fn), cn))
+		}
+	}
 	// a sort only undoes map order when its comparator tells all elements apart: elements that compare equal keep
 	// whatever relative order the map handed them in (the library sorts used here are not stable)
 	for _, fn := range fns {
